@@ -429,6 +429,7 @@ class Exec:
                     s.list_method(s.eval(t.value, env), 'pop', [-1], {}, st)
                 else: raise Unsupported("del statement other than `del lst[-1]`", st, env.get('__path__'))
             return
+        if isinstance(st, ast.Continue): raise ContinueLoop()
         if isinstance(st, ast.Pass): return
         if isinstance(st, ast.Try):
             if st.finalbody: raise Unsupported("try/finally", st)
@@ -1191,6 +1192,11 @@ def _has_term(v):
     if isinstance(v, (T, B, Seq)): return True
     if isinstance(v, (tuple, list)): return any(_has_term(x) for x in v)
     return False
+
+
+class ContinueLoop(Exception):
+    """`continue`: the rest of the current iteration is skipped (only meaningful where a loop body is executed for one generic iteration
+    by a property module; the executor's own generic loops reject `continue` syntactically)"""
 
 
 class _NoFork(Exception):
